@@ -183,15 +183,15 @@ H("c06_rc4_ref_symkey1", "rc4.rs", {"C06": X}, ["encryption::rc4::Rc4::new"], "e
 H("c06_rc4_ref_symkey2", "rc4.rs", {"C06": X}, ["encryption::rc4::Rc4::new"], "every 2-byte key", timeout=2700, mem_gb=16, fs_size=300)
 for v, d in (("rc4_key40", "RC4, 40-bit file key"), ("rc4_key128", "RC4, 128-bit file key"), ("aes_key128", "AESV2 (adds 'sAlT'), 128-bit file key")):
     H(f"c06_alg1_{v}", "crypt_filters.rs", {"C06": Q}, ["encryption::crypt_filters::Rc4CryptFilter::compute_key", "encryption::crypt_filters::Aes128CryptFilter::compute_key"],
-      f"Algorithm 1, {d}: all file keys x all object numbers (u32) x all generations (u16): the MD5 input is key || id[0..3] LE || gen[0..2] LE (|| 'sAlT'), one digest, truncated to min(n+5,16); MD5 replaced by the recording model", timeout=600, mem_gb=6, models=MD5M, stubs=["md-5 -> transparent recording hash model"])
+      f"Algorithm 1, {d}: all file keys x all object numbers (u32) x all generations (u16): the MD5 input is key || id[0..3] LE || gen[0..2] LE (|| 'sAlT'), one digest, truncated to min(n+5,16); MD5 replaced by the recording model", timeout=600, mem_gb=6, models=MD5M, replay_models=["md-5"], stubs=["md-5 -> transparent recording hash model"])
 A2 = ["encryption::algorithms::PasswordAlgorithm::compute_file_encryption_key_r4", "encryption::Permissions::p_value"]
 for v, d in (("r2_pw5", "revision 2, 5-byte password"), ("r2_pw0", "revision 2, empty password (full padding string)"), ("r2_pw33", "revision 2, 33-byte password (truncated to 32, no padding)"), ("r3_key40_pw0", "revision 3, 40-bit key, empty password"), ("r3_key128_pw33", "revision 3, 128-bit key, 33-byte password (truncated to 32)"), ("r4_key128_pw5", "revision 4, 128-bit key, 5-byte password, EncryptMetadata symbolic")):
     H(f"c06_alg2_{v}", "algorithms.rs", {"C06": Q if v.startswith("r2_") else X}, A2,
       f"Algorithm 2, {d}: all passwords x all 32-byte O x all P x all 8-byte file ids: MD5 input, number of MD5 rounds (1+50) and truncations as the standard prescribes; MD5 replaced by the recording model",
-      timeout=2400, mem_gb=6 if v.startswith("r2_") else 26, models=MD5M, stubs=["md-5 -> transparent recording hash model", "std::hash::RandomState::new -> fixed keys"] + LS)
-H("c06_alg1a_aes256_key", "crypt_filters.rs", {"C06": Q}, ["encryption::crypt_filters::Aes256CryptFilter::compute_key"], "Algorithm 1.A: all 32-byte keys, object numbers and generations: key used as is, no MD5", timeout=600, mem_gb=6, models=MD5M)
-H("c05_identity_filter", "crypt_filters.rs", {"C05": Q}, ["encryption::crypt_filters::IdentityCryptFilter"], "all 4-byte data, all 5-byte keys: encrypt and decrypt are the identity", timeout=300, mem_gb=4, models=MD5M)
-H("c05_rc4_filter_roundtrip", "crypt_filters.rs", {"C05": T}, ["encryption::crypt_filters::Rc4CryptFilter::encrypt", "encryption::crypt_filters::Rc4CryptFilter::decrypt"], "concrete 10-byte object key, all 6-byte data: decrypt(encrypt(x)) == x", timeout=1500, mem_gb=12, models=MD5M, fs_size=300)
+      timeout=2400, mem_gb=6 if v.startswith("r2_") else 26, models=MD5M, replay_models=["md-5"], stubs=["md-5 -> transparent recording hash model", "std::hash::RandomState::new -> fixed keys"] + LS)
+H("c06_alg1a_aes256_key", "crypt_filters.rs", {"C06": Q}, ["encryption::crypt_filters::Aes256CryptFilter::compute_key"], "Algorithm 1.A: all 32-byte keys, object numbers and generations: key used as is, no MD5", timeout=600, mem_gb=6, models=MD5M, replay_models=["md-5"])
+H("c05_identity_filter", "crypt_filters.rs", {"C05": Q}, ["encryption::crypt_filters::IdentityCryptFilter"], "all 4-byte data, all 5-byte keys: encrypt and decrypt are the identity", timeout=300, mem_gb=4, models=MD5M, replay_models=["md-5"])
+H("c05_rc4_filter_roundtrip", "crypt_filters.rs", {"C05": T}, ["encryption::crypt_filters::Rc4CryptFilter::encrypt", "encryption::crypt_filters::Rc4CryptFilter::decrypt"], "concrete 10-byte object key, all 6-byte data: decrypt(encrypt(x)) == x", timeout=1500, mem_gb=12, models=MD5M, replay_models=["md-5"], fs_size=300)
 EO = ["encryption::encrypt_object", "encryption::decrypt_object", "encryption::EncryptionState::get_string_filter", "encryption::crypt_filters::Rc4CryptFilter"]
 H("c05_object_string_roundtrip", "encryption.rs", {"C05": X}, EO, "top-level string of 4 symbolic bytes, RC4 (V2/R3, concrete 40-bit file key), object (7,0): decrypt_object(encrypt_object(x)) == x", timeout=1500, mem_gb=12, fs_size=300)
 H("c05_object_integer_untouched", "encryption.rs", {"C05": Q}, EO, "all i64 integer objects: both directions leave them unchanged", timeout=600, mem_gb=8)
